@@ -241,6 +241,7 @@ def run(ctx):
     ctx.coverage["rule"] = ("as C05's generator (acyclic grammars only: Gram.derives_cycle()) plus the known looping table; inputs with many "
                             "independent errors, errors at end of input, the empty input, unchanged sentences; a case = one input; "
                             "non-trivial = at least one error; distinct by (grammar text, costs, token list)")
+    ctx.coverage["builder_order_rule"] = repair.BUILDER_ORDER_RULE + "; both orders also carry the single-shot harness lexer (a second Lexer::iter call on one lexer panics)"
     ctx.assumptions += ["domain: grammars in which no rule derives just itself (checked on the abstract grammar before rendering)",
                         "recovery budget raised to %d ms through the hook; a last error without repairs is allowed by the property, "
                         "so a budget timeout is never an alarm" % repair.BUDGET_MS,
